@@ -462,7 +462,14 @@ pub fn parse_block_scoped_function(exp: &Pair<Rule>) -> Result<PreExp, Compilati
     let span = InputSpan::from_pair(exp);
     let inner = exp.clone().into_inner();
     let name = inner.find_first_tagged("name");
-    let body = inner.find_first_tagged("body");
+    //the body is looked up among the direct children only: a tag search over the
+    //whole subtree would first meet the body of a block nested inside the
+    //iteration list, as in sum(i in 0..max{1, 2}) { i }
+    let body = exp
+        .clone()
+        .into_inner()
+        .filter(|p| p.as_node_tag() == Some("body"))
+        .last();
     let iters = inner.find_first_tagged("range");
     if name.is_none() || iters.is_none() || body.is_none() {
         return err_unexpected_token!("found {}, expected scoped block function", exp);
